@@ -27,6 +27,7 @@ func checkC16(c *Ctx) {
 	c16Gate(c)
 	c16TicketState(c)
 	c16LRU(c)
+	c16SharedKeys(c)
 	c15FinishedHash(c) // the resumed GMSSL handshake builds its transcript hash with newFinishedHash
 }
 
@@ -356,6 +357,22 @@ func c16Gate(c *Ctx) {
 		// K-C16-restore
 		fs := fieldStores(f, ci.be)
 		c.Check(strings.HasSuffix(fieldForm(fs["masterSecret"]), "session.masterSecret"), "K-C16-restore", fname(f), "the resumed master secret is the cached session's", "", "masterSecret is set to "+fs["masterSecret"], f.Pos())
+		// the peer identity is restored here too, i.e. before the abbreviated flight (a renewed ticket is turned
+		// into a new cache entry from Conn.peerCertificates while that flight is still running)
+		c.Check(strings.HasSuffix(fieldForm(fs["peerCertificates"]), "session.serverCertificates") && strings.HasSuffix(fieldForm(fs["verifiedChains"]), "session.verifiedChains"), "K-C16-restore", fname(f), "the resumed peer certificates and chains are the cached session's, restored together with the master secret", "", "processServerHello sets peerCertificates="+fs["peerCertificates"]+" verifiedChains="+fs["verifiedChains"]+": when the server renews the ticket during the resumed handshake, the new cache entry is built from a Conn that does not hold the peer's certificates yet", f.Pos())
+	}
+	// the client's cache entry: ticket, version, suite, master secret and the peer identity of THIS connection
+	for _, name := range []string{"(*clientHandshakeState).readSessionTicket", "(*clientHandshakeStateGM).readSessionTicket"} {
+		f := c.Fn("gmtls", name)
+		if f == nil {
+			c.Missing("K-C16-restore", "gmtls."+name, "method", "not found")
+			continue
+		}
+		be := newBigEnv(f, allParamNames(f))
+		fs := fieldStores(f, be)
+		get := func(k string) string { return fieldForm(fs[k]) }
+		ok := strings.HasSuffix(get("vers"), "c.vers") && get("cipherSuite") == "hs.suite.id" && get("masterSecret") == "hs.masterSecret" && strings.HasSuffix(get("serverCertificates"), "c.peerCertificates") && strings.HasSuffix(get("verifiedChains"), "c.verifiedChains") && strings.HasSuffix(get("sessionTicket"), ".ticket")
+		c.Check(ok, "K-C16-restore", fname(f), "the cached client session holds this connection's ticket, version, suite, master secret and peer certificates", "", fmt.Sprintf("the ClientSessionState is built from sessionTicket=%s vers=%s cipherSuite=%s masterSecret=%s serverCertificates=%s verifiedChains=%s", get("sessionTicket"), get("vers"), get("cipherSuite"), get("masterSecret"), get("serverCertificates"), get("verifiedChains")), f.Pos())
 	}
 	for _, name := range []string{"(*serverHandshakeStateGM).doResumeHandshake", "(*serverHandshakeState).doResumeHandshake"} {
 		f := c.Fn("gmtls", name)
@@ -587,4 +604,62 @@ func c16LRU(c *Ctx) {
 	if n < 2 {
 		c.Undecided(rule, fname(f), "index insertions", fmt.Sprintf("only %d found", n), f.Pos())
 	}
+}
+
+// c16SharedKeys: a Config produced by GetConfigForClient serves tickets under the LISTENING Config's live key set:
+// serverInit(originalConfig) assigns originalConfig.sessionTicketKeys when an original is given, and derives a key
+// set of its own only otherwise. (A private copy would ignore later rotations: tickets under removed keys would
+// still resume, and a listener configured only through SetSessionTicketKeys would hand out an all-zero key.)
+func c16SharedKeys(c *Ctx) {
+	rule := "K-C16-sharedkeys"
+	f := c.Fn("gmtls", "(*Config).serverInit")
+	if f == nil {
+		c.Missing(rule, "gmtls.(*Config).serverInit", "method", "not found")
+		return
+	}
+	var orig ssa.Value
+	if len(f.Params) == 2 {
+		orig = f.Params[1]
+	}
+	var withOrig, without *ssa.BasicBlock // blocks entered when originalConfig != nil / == nil
+	for _, ifi := range ifsOf(f) {
+		bo, ok := ifi.Cond.(*ssa.BinOp)
+		if !ok || bo.X != orig || !isNilConst(bo.Y) {
+			continue
+		}
+		b := ifi.Block()
+		if bo.Op == token.NEQ {
+			withOrig, without = b.Succs[0], b.Succs[1]
+		} else if bo.Op == token.EQL {
+			withOrig, without = b.Succs[1], b.Succs[0]
+		}
+		// the last such test governs the key set; keep iterating
+	}
+	c.Evals++
+	shared, own := false, false
+	instrsOf(f, func(b *ssa.BasicBlock, in ssa.Instruction) {
+		st, ok := in.(*ssa.Store)
+		if !ok {
+			return
+		}
+		fa, ok := st.Addr.(*ssa.FieldAddr)
+		if !ok || fieldName(fa.X.Type(), fa.Field) != "sessionTicketKeys" || fa.X != ssa.Value(f.Params[0]) {
+			return
+		}
+		if ld, ok := st.Val.(*ssa.UnOp); ok {
+			if fa2, ok := ld.X.(*ssa.FieldAddr); ok && fa2.X == orig && fieldName(fa2.X.Type(), fa2.Field) == "sessionTicketKeys" {
+				if withOrig != nil && (withOrig == b || withOrig.Dominates(b)) {
+					shared = true
+				}
+				return
+			}
+		}
+		if without != nil && (without == b || without.Dominates(b)) {
+			own = true
+		} else {
+			own, shared = false, false // a key set of its own on a path where an original Config exists
+			without = nil
+		}
+	})
+	c.Check(shared && own, rule, fname(f), "a per-client Config shares the listening Config's ticket keys; only a stand-alone Config derives its own", "", "serverInit does not assign originalConfig.sessionTicketKeys on the path where an original Config is given (or derives a private key set there): per-client Configs ignore SetSessionTicketKeys rotations of the listener", f.Pos())
 }
